@@ -1,4 +1,4 @@
-import RsMatterVerif.Lemmas.AdminGen
+import RsMatterVerif.Lemmas.AdminRec
 /-!
 # C07 — nothing bound to a fabric outlives that fabric
 
@@ -225,10 +225,43 @@ theorem no_record_of_another_incarnation (n : Node) (h : NoDangling n) (r : Resu
   rw [hf] at this
   simpa using this.symm
 
-/-- full statement: for every history without factory reset.  The restarts are covered by
-`noDangling_calm` (Lemmas/AdminRec.lean) for the histories without store fault; with store faults a
-restart can find a stored resumption record of an earlier incarnation (see docs/C07.md). -/
+/-- **Restarts included**: for every history in which no store fault fires (`Calm`: the fault
+counter is 0 in every state - decidable), restarts, crash points, corrupted resumption blobs and the
+factory-reset-before-start-up included: nothing dangles.  (Index re-use across a restart is covered:
+the stored resumption records always fit the stored fabrics, `RecOK`.) -/
+theorem noDangling_calm (cfg : Cfg) (ops : List Op) (hno : Op.freset ∉ ops) (hcalm : Calm cfg {} ops) :
+    NoDangling (run cfg {} ops) :=
+  (run_good cfg ops {} genInv_init rec_init hno hcalm).1.1
+
+/-- ... and every store a crash can leave behind is fit for a restart -/
+theorem every_snapshot_recOK (cfg : Cfg) (ops : List Op) (hno : Op.freset ∉ ops) (hcalm : Calm cfg {} ops) :
+    RecOK (run cfg {} ops).kv ∧ ∀ kv ∈ (run cfg {} ops).hist, RecOK kv := by
+  have ⟨hg, hr⟩ := run_good cfg ops {} genInv_init rec_init hno hcalm
+  exact ⟨recOK_of hg hr.live, hr.hist⟩
+
+/-- the hypotheses are satisfiable by a history with removal, restart and re-use of the index -/
+example :
+    let ops : List Op := [.boot, .pase, .arm 0 60, .csr 0 false, .root 0 1, .addnoc 0 1 5 10 100 1,
+      .caseEst 1 100 1, .complete 1, .flush, .rmfab 1 1, .restart, .boot, .pase, .arm 0 60, .csr 0 false,
+      .root 0 2, .addnoc 0 2 6 11 101 2, .caseEst 1 101 2, .complete 1, .crash 3]
+    Op.freset ∉ ops ∧ Calm {} {} ops ∧ (run {} {} ops).fabrics.length = 1 := by
+  refine ⟨by decide, by decide, by decide⟩
+
+/-- full statement: for EVERY history without factory reset - store faults and restarts together.
+FALSE of the code (open finding `C07-failed-purge-on-rollback`): when the store of the purged
+resumption cache fails during a fail-safe rollback, the stored blob keeps a record of the dropped
+fabric; after a re-commissioning that re-uses the index and a restart, the record is loaded next to
+the new fabric. -/
 def C07_full_noDangling : Prop :=
   ∀ (cfg : Cfg) (ops : List Op), Op.freset ∉ ops → NoDangling (run cfg {} ops)
+
+theorem C07_full_noDangling_false : ¬ C07_full_noDangling := by
+  intro h
+  have hd := h {} [.boot, .pase, .arm 0 60, .csr 0 false, .root 0 1, .addnoc 0 1 5 10 100 1, .caseEst 1 100 1,
+    .flush, .kvfail 1, .arm 1 0, .pase, .arm 2 60, .csr 2 false, .root 2 2, .addnoc 2 2 6 11 101 2,
+    .caseEst 1 101 2, .complete 3, .restart] (by decide)
+  have := hd.2 { fab := 1, peer := 100, rid := 1, gen := 1 } (by decide)
+  revert this
+  decide
 
 end C07
